@@ -45,7 +45,7 @@ abbrev Bytes := List UInt8
 structure RStream where
   rest : Bytes
   eof : Bool
-deriving Repr
+deriving Repr, DecidableEq
 
 /-- the byte loop of `fgets` with room for `k` bytes: (stored bytes, bytes left in the file, "ran out of bytes") -/
 def fgetsAux : Nat → Bytes → Bytes × Bytes × Bool
@@ -264,7 +264,7 @@ structure Handle where
   rs : RStream
   /-- output position of a non-append writer -/
   pos : Nat
-deriving Repr
+deriving Repr, DecidableEq
 
 /-- `File::open(name, mode)` / `TextFile::open(name, mode)` (`mode | TEXT`) -/
 def openH (d : Disk) (p : Nat) (isText : Bool) (mode : OpenMode) : Option Handle × Disk :=
@@ -285,6 +285,11 @@ def fwrite (d : Disk) (h : Handle) (bs : Bytes) : Nat × Disk × Handle :=
     if h.sm.append then (bs.length, d.set h.path (some (old ++ bs)), h)
     else (bs.length, d.set h.path (some (overwrite old h.pos bs)), { h with pos := h.pos + bs.length })
   else (0, d, h)
+
+/-- every byte string of a session goes through `fwrite` on the open handle, in order -/
+def writeAll (d : Disk) (h : Handle) : List Bytes → Disk × Handle
+  | [] => (d, h)
+  | bs :: t => writeAll (fwrite d h bs).2.1 (fwrite d h bs).2.2 t
 
 /-- `File::read(p, n)` -/
 def hread (h : Handle) (n : Nat) : Bytes × Handle :=
